@@ -22,6 +22,8 @@ def run_designer(name, keys, seed, rounds, batch):
   from props import c03
   from vizier import algorithms as vza
   from vizier import pyvizier as vz
+  restart = name.endswith('@restart')     # a history with checkpoint restores (dump -> new instance -> load) in it
+  name = name.split('@')[0]
   ds = c03.designers('thorough' if name.startswith('gp') else 'quick')
   goals = ('MAXIMIZE', 'MINIMIZE') if name == 'nsga2' else ('MAXIMIZE',)
   prob = c03.problem(keys, goals)
@@ -29,6 +31,10 @@ def run_designer(name, keys, seed, rounds, batch):
   out = []
   tid = 0
   for r in range(rounds):
+    if restart and r in (1, 2, rounds // 2):
+      md = d.dump()
+      d = ds[name](prob, seed)
+      d.load(md)
     sugg = list(d.suggest(batch))
     out.append([sorted((k, v if isinstance(v, str) else float(v)) for k, v in s.parameters.as_dict().items()) for s in sugg])
     trials = []
@@ -98,6 +104,8 @@ def run(ctx):
         continue
       for seed in (s, s + 1):
         jobs.append([name, list(sp), seed])
+      if name in ('eagle', 'nsga2', 'quasi_random', 'shuffled_grid') and sp == spaces[0]:
+        jobs.append([name + '@restart', list(sp), s])
   benchmarks = [[a, e, sd] for a in ('random', 'quasi_random', 'eagle', 'nsga2', 'shuffled_grid') for e in ('branin', 'sphere') for sd in (s, s + 1)]
   if not q:
     for name in ('gp_bandit', 'gp_ucb_pe'):
@@ -141,7 +149,7 @@ def run(ctx):
   # different seeds -> different streams
   seeds_checked = 0
   for name, sp, seed in jobs:
-    if seed != s or name in ('grid',):
+    if seed != s or name in ('grid',) or '@' in name:
       continue
     a = base['result'].get('%s|%s|%d' % (name, '+'.join(sp), s))
     b = base['result'].get('%s|%s|%d' % (name, '+'.join(sp), s + 1))
